@@ -4,8 +4,10 @@
 * `ledger[id]` is "open" or "closed" (the open/closed ledger the property's `observe_at` names);
 * every DBAPI call the pool makes (`connect`, `close`, `rollback`, `commit`, `ping`) is appended to `calls`
   and consults the FAULT PLAN first:
-      plan.script  list consumed one entry per DBAPI call, in call order: falsy = succeed, truthy = fail
-                   (sequential checks: the TLC edge dictates the list; `overrun` counts calls made after it ran dry)
+      plan.script  list consumed one entry per DBAPI call, in call order: falsy = succeed, truthy = fail with the driver's
+                   Error, "base" = fail with Interrupted (a BaseException that is NOT an Exception: KeyboardInterrupt,
+                   asyncio.CancelledError, a gevent Timeout) - (sequential checks: the TLC edge dictates the list; `overrun`
+                   counts calls made after it ran dry)
       plan.nth     {(call_name, n): True}  fail the n-th call of that name (1-based; schedule checks: seeded)
   A failing `close` still closes the connection in the ledger (a DBAPI whose close() raises has dropped the socket;
   the pool swallows the error), a failing `connect` opens nothing.
@@ -15,6 +17,10 @@ No sqlalchemy import here; no wall clock; no randomness.
 
 class Error(Exception):
     """the fake driver's error class (what a DBAPI would raise)"""
+
+
+class Interrupted(BaseException):
+    """an interrupt delivered while the driver is inside a call: not an Exception, so `except Exception` does not see it"""
 
 
 class Plan:
@@ -42,7 +48,7 @@ class Plan:
             if self.pos < len(self.script):
                 v = self.script[self.pos]
                 self.pos += 1
-                return bool(v)
+                return "base" if v == "base" else bool(v)
             self.overrun += 1
         return False
 
@@ -62,15 +68,23 @@ class Connection:
     def close(self):
         bad = self._call("close")
         self._dbapi.ledger[self.id] = "closed"
+        if bad == "base":
+            raise Interrupted("interrupted while closing %d" % self.id)
         if bad:
             raise Error("close failed on %d" % self.id)
 
     def rollback(self):
-        if self._call("rollback"):
+        bad = self._call("rollback")
+        if bad == "base":
+            raise Interrupted("interrupted during rollback on %d" % self.id)
+        if bad:
             raise Error("rollback failed on %d" % self.id)
 
     def commit(self):
-        if self._call("commit"):
+        bad = self._call("commit")
+        if bad == "base":
+            raise Interrupted("interrupted during commit on %d" % self.id)
+        if bad:
             raise Error("commit failed on %d" % self.id)
 
     def ping(self):
